@@ -1,7 +1,25 @@
-import Nv.Model.C20
+import Nv.Props.C20
 import Nv.Gen.C20
-/-! C20 — obligations on the definitions regenerated from /repo's current source. -/
+/-!
+C20 — obligations on the definitions regenerated from /repo's current source: the regenerated
+configuration is inside the proved set, the shape facts are the ones the model is written
+against, and the two central property theorems hold of the regenerated wrappers themselves.
+-/
 namespace Nv.C20
 theorem tie_facts : Nv.Gen.C20.facts = Facts.expected := by decide
 theorem tie_cfg_proved : Proved Nv.Gen.C20.cfg := by decide
+
+/-- exact-or-error, stated on the regenerated JsUInt64 / JsUnixTime / JsNanoTime / UnixStamp / JsInt64 -/
+theorem tie_exact_or_error (b : Bytes) (v : Int) :
+    (decodeInt Nv.Gen.C20.cfg.i64 b = .ok v → denotes b v) ∧ (decodeInt Nv.Gen.C20.cfg.u64 b = .ok v → denotes b v) ∧
+    (decodeInt Nv.Gen.C20.cfg.unixTime b = .ok v → denotes b v) ∧ (decodeInt Nv.Gen.C20.cfg.nanoTime b = .ok v → denotes b v) ∧
+    (decodeInt Nv.Gen.C20.cfg.stamp b = .ok v → denotes b v) :=
+  ⟨fun h => (i64_exact_or_error _ tie_cfg_proved b v h).1, fun h => (u64_exact_or_error _ tie_cfg_proved b v h).1,
+   unixtime_exact_or_error _ tie_cfg_proved b v, nanotime_exact_or_error _ tie_cfg_proved b v,
+   stamp_exact_or_error _ tie_cfg_proved b v⟩
+
+/-- no wrapped byte, stated on the regenerated JsByte -/
+theorem tie_jsbyte_no_wrap (b : Bytes) (l : List Nat)
+    (h : decodeBytes Nv.Gen.C20.cfg.byte Nv.Gen.C20.cfg.byteConv b = .ok l) : denotesBytes b l ∧ ∀ x ∈ l, x ≤ 255 :=
+  ⟨jsbyte_exact_or_error _ tie_cfg_proved b l h, jsbyte_no_wrap _ tie_cfg_proved b l h⟩
 end Nv.C20
